@@ -69,6 +69,8 @@ fn cases() -> Vec<Case> {
     }
     for n in [S0, S1, PUSH_SUB] {
         v.push(Case::Name("create-sub.name", n.to_string()));
+        // ... also when the rejected request names another topic than the existing subscription's
+        v.push(Case::Name("create-sub.name@t1", n.to_string()));
     }
     for rpc in ["ack", "modify", "stream-ack", "stream-modify"] {
         for id in ["", "x", "-1", "1.5", "18446744073709551616", " 1", "1 ", "+1", "0x1", "١", "1\u{0}", "99999999999999999999999999999"] {
@@ -180,6 +182,7 @@ fn unit() -> Unit {
                 let n2 = name.clone();
                 let is_topic_field = matches!(field, "create-topic.name" | "get-topic.topic" | "delete-topic.topic" | "publish.topic" | "list-topic-subs.topic" | "create-sub.topic");
                 let is_project_field = matches!(field, "list-topics.project" | "list-subs.project");
+                let field_kind = field;
                 let malformed = if is_project_field { !name.starts_with("projects/") } else if is_topic_field { recognise(&name, "/topics/").is_none() } else { recognise(&name, "/subscriptions/").is_none() };
                 let st = tryv!(cx.settle("client:request", async move {
                     match field {
@@ -190,6 +193,7 @@ fn unit() -> Unit {
                         "list-topics.project" => res(&a.list_topics(&n2, 10, "").await),
                         "list-topic-subs.topic" => res(&a.list_topic_subs(&n2, 10, "").await),
                         "create-sub.name" => res(&a.create_sub(&n2, T0, 10, None).await),
+                        "create-sub.name@t1" => res(&a.create_sub(&n2, T1, 10, None).await),
                         "create-sub.topic" => res(&a.create_sub("projects/p/subscriptions/fresh", &n2, 10, None).await),
                         "get-sub.subscription" => res(&a.get_sub(&n2).await),
                         "delete-sub.subscription" => res(&a.delete_sub(&n2).await),
